@@ -85,4 +85,16 @@ def andM (a : Bool) (b : Res Bool) : Res Bool := if a then b else .ok false
 /-- `a or b` where evaluating `b` may raise. -/
 def orM (a : Bool) (b : Res Bool) : Res Bool := if a then .ok true else b
 
+/-- `getattr(state, name)` on a raw goal state: `AttributeError` for an absent name. -/
+def rawGet (st : RawG) (f : Fld) : Res (Option Cls) :=
+  match st.lookup f with
+  | some c => .ok c
+  | none => .error .attr
+
+/-- `state.used_attributes` of a raw goal state. -/
+def rawUsed (st : RawG) : List Fld := st.used
+
+/-- `isinstance(v, C)`. -/
+def isInst (v : Option Cls) (c : Cls) : Bool := CR.Goal.isInst v c
+
 end CR.PyG
